@@ -106,6 +106,9 @@ Rules(e, n) ==
     \cup (IF \E h \in subbed' : Live(o, h) /\ ~InTrie(o, cfg[h].id) /\ h \notin raced' /\ h \notin victims' THEN {"C15.live-subscription-lost"} ELSE {})
     \cup (IF e.g = "attach.willCancel" /\ e.got = e.g /\ Has(o.wire[K(e.h)], "CONNACK0") /\ InTrie(o, cfg[e.h].id) /\ e.h \notin raced'
           THEN {"C15.subscription-survives-discarded-session"} ELSE {})
+    \cup (IF (\A h \in 1..n : lastGate'[h] \in {"idle", "spawn", "read", "finished"})
+             /\ o.cnt # Cardinality({h \in 1..n : lastGate'[h] = "read"})
+          THEN {"C38.connected-counter-differs-from-connections"} ELSE {})
     \cup (IF \E h \in 1..n : o.wills[K(h)] > 1 THEN {"C16.will-published-twice"} ELSE {})
     \cup (IF \E h \in cancelled : o.wills[K(h)] > prevWills[h] THEN {"C16.cancelled-will-published"} ELSE {})
     \cup (IF e.got = "finished" /\ e.h > 0 /\ EffW(e.h) = 0 /\ ObsAcked(o, e.h) /\ o.wills[K(e.h)] = 0 /\ e.h \in noWillRead'
